@@ -114,10 +114,10 @@ type kcNode struct {
 	va  *versionAssigner
 	ps  *persist
 	// observed
-	seen      map[int]bool       // ops delivered or created here
-	notified  map[string]int     // key|ver|lease -> times accepted (C13)
-	lastDig   map[string][2]int64 // key -> (ver, lease) after the previous step
-	lastIssued int64 // highest version this node's assigner has issued
+	seen       map[int]bool        // ops delivered or created here
+	notified   map[string]int      // key|ver|lease -> times accepted (C13)
+	lastDig    map[string][2]int64 // key -> (ver, lease) after the previous step
+	lastIssued int64               // highest version this node's assigner has issued
 }
 
 type kcOp struct {
